@@ -283,6 +283,16 @@ class IndexInterp:
                 return ("attr", "operator." + e.id)          # `from operator import add`
             if self.home is not None and self.home[1] is not None and e.id in getattr(self.home[1], "functions", {}):
                 return Closure(self.home[1].functions[e.id])          # a function of the module, held as a value (a table of handlers, a callback)
+            if self.home is not None and self.home[1] is not None and e.id in getattr(self.home[1], "imports", {}) and self.home[0] is not None:
+                r0 = self.home[0].resolve_name(self.home[1], e.id)          # a name imported from another module of the package
+                if isinstance(r0, ast.FunctionDef):
+                    return Closure(r0)
+                if isinstance(r0, tuple) and r0 and r0[0] == "global" and len(r0) == 3:
+                    sub = IndexInterp({})
+                    sub.home = (self.home[0], r0[1], None)
+                    val = sub.ev(r0[2])
+                    self.env[e.id] = val
+                    return val
             if self.home is not None and self.home[1] is not None:
                 v0 = _module_constant(self.home[1], e.id)
                 if v0 is not None:
@@ -1233,6 +1243,34 @@ class IndexInterp:
         else:
             raise AnalysisError("assignment target `%s`" % src(target))
 
+    def _match(self, pat, subj):
+        """structural pattern matching, the patterns a dispatch on kinds uses: `Cls()`, literals, `a | b`, `_` / a capture name"""
+        if isinstance(pat, ast.MatchAs):
+            if pat.pattern is not None and not self._match(pat.pattern, subj):
+                return False
+            if pat.name is not None:
+                self.env[pat.name] = subj
+            return True
+        if isinstance(pat, ast.MatchOr):
+            return any(self._match(p0, subj) for p0 in pat.patterns)
+        if isinstance(pat, ast.MatchValue):
+            self.env["__match_value"] = subj
+            try:
+                return self.truth(self.ev(ast.Compare(left=ast.Name(id="__match_value", ctx=ast.Load()), ops=[ast.Eq()], comparators=[pat.value])))
+            finally:
+                self.env.pop("__match_value", None)
+        if isinstance(pat, ast.MatchSingleton):
+            return subj is pat.value
+        if isinstance(pat, ast.MatchClass) and not pat.patterns and not pat.kwd_patterns:
+            # `case Cls():` is `isinstance(subject, Cls)`: asked the way the program would ask it (the rule's model of isinstance answers)
+            self.env["__match_value"] = subj
+            try:
+                call = ast.Call(func=ast.Name(id="isinstance", ctx=ast.Load()), args=[ast.Name(id="__match_value", ctx=ast.Load()), pat.cls], keywords=[])
+                return self.truth(self.ev(ast.copy_location(call, pat)))
+            finally:
+                self.env.pop("__match_value", None)
+        raise AnalysisError("pattern `%s` outside the index-program fragment" % src(pat)[:50])
+
     def run(self, stmts):
         """-> returned value (or None).  Statement-level calls are appended to self.events as (node, value)."""
         if self.home is None and stmts:
@@ -1386,5 +1424,15 @@ class IndexInterp:
                 else:
                     self._block(s.orelse)
                 self._block(s.finalbody)
+            elif hasattr(ast, "Match") and isinstance(s, ast.Match):
+                subj = self.ev(s.subject)
+                self.env["__match_subject"] = subj
+                try:
+                    for case in s.cases:
+                        if self._match(case.pattern, subj) and (case.guard is None or self.truth(self.ev(case.guard))):
+                            self._block(case.body)
+                            break
+                finally:
+                    self.env.pop("__match_subject", None)
             else:
                 raise AnalysisError("statement `%s` outside the index-program fragment" % norm_stmt(s)[:50])
